@@ -9,18 +9,19 @@ import (
 )
 
 type reconfState struct {
-	lastIdx    map[string]int // proc|src|sess -> last record index processed
-	lastGen    map[string]int // proc|src|sess -> generation that processed it
-	openSeq    map[string]int // proc|gen -> event number at which that generation was opened
-	seen       map[string]bool
-	failedGens map[string]map[int]bool // proc -> generations whose open failed
-	appliedRev map[string]string
-	inflight   map[string]int  // processor -> reconfigure requests in flight
-	tainted    map[string]bool // processor -> some of the requests in flight overlapped
+	lastIdx     map[string]int // proc|src|sess -> last record index processed
+	lastGen     map[string]int // proc|src|sess -> generation that processed it
+	openSeq     map[string]int // proc|gen -> event number at which that generation was opened
+	seen        map[string]bool
+	failedGens  map[string]map[int]bool // proc -> generations whose open failed
+	appliedRev  map[string]string
+	inflight    map[string]int    // processor -> reconfigure requests in flight
+	tainted     map[string]bool   // processor -> some of the requests in flight overlapped
+	refusedGens map[string]string // proc|gen -> error the request that built this generation returned
 }
 
 func newReconfState() *reconfState {
-	return &reconfState{lastIdx: map[string]int{}, lastGen: map[string]int{}, openSeq: map[string]int{}, seen: map[string]bool{}, failedGens: map[string]map[int]bool{}, appliedRev: map[string]string{}, inflight: map[string]int{}, tainted: map[string]bool{}}
+	return &reconfState{lastIdx: map[string]int{}, lastGen: map[string]int{}, openSeq: map[string]int{}, seen: map[string]bool{}, failedGens: map[string]map[int]bool{}, appliedRev: map[string]string{}, inflight: map[string]int{}, tainted: map[string]bool{}, refusedGens: map[string]string{}}
 }
 
 func (o *Oracles) onReconfEvent(w *World, e *Event) {
@@ -50,6 +51,9 @@ func (o *Oracles) onReconfEvent(w *World, e *Event) {
 		pc := w.procs[e.Ent]
 		if pc == nil || pc.cfg.Workers > 1 {
 			return // parallel workers process out of order by design; only single nodes are live-reconfigurable
+		}
+		if msg, ok := r.refusedGens[fmt.Sprintf("%s|%d", e.Ent, e.N)]; ok {
+			w.violate("C13", "refused-reconfigure-took-effect", fmt.Sprintf("the live reconfigure request that built generation %d of processor %s returned an error (%s), yet records %v are processed with that configuration: the caller was told the old one keeps running", e.N, e.Ent, msg, e.IDs))
 		}
 		if r.failedGens[e.Ent][e.N] {
 			w.violate("C13", "failed-generation-used", fmt.Sprintf("processor %s generation %d failed to open but processed records %v", e.Ent, e.N, e.IDs))
